@@ -1,7 +1,9 @@
-(* Lemmas about the IGS line drawing (Model/IgsLine.v): draw_line is an unclipped Bresenham.  For ALL arguments its loop ends
-   at (x1, y1) after at least max(dx, dy) + 1 and at most dx + dy + 1 iterations (the model's fuel is never exhausted) — the
-   work is proportional to the COORDINATES, not to the canvas (known finding igs-timeout:L) — unless an i32 operation overflows
-   first; with end points within +-2^27 nothing overflows. *)
+(* Lemmas about the IGS line drawing (Model/IgsLine.v).  draw_line clips the line to the screen (clip_line: four edge cuts in
+   i128, no overflow, no division by zero, both end points on the screen afterwards) and runs its Bresenham loop over the clipped
+   line: for ALL i32 arguments it returns, after at most width + height - 1 iterations — work bounded by the CANVAS.
+   The loop itself (dl_loop, dl_body) ends at (x1, y1) after at least max(dx, dy) + 1 and at most dx + dy + 1 iterations (the
+   model's fuel is never exhausted); that is also the statement about draw_line BEFORE the fix ([igs_draw_line_unclipped]):
+   work proportional to the coordinates, LINE_STYLE[6] out of range. *)
 From Coq Require Import NArith ZArith List Bool Lia Arith.
 From IE Require Import Gen.IgsGen Model.RipTok Model.BgiKernel Model.IgsTok Model.IgsKernel Model.IgsLine
                        Proofs.RipTokProofs Proofs.BgiProofs Proofs.IgsTokProofs Proofs.IgsKernelProofs.
@@ -121,25 +123,19 @@ Proof. reflexivity. Qed.
 Definition DLH : Z := 134217728.   (* 2^27: end points this close to the origin keep dx, dy <= 2^28 and 2 * err inside i32 *)
 Definition DlSmall (x0 y0 x1 y1 : Z) : Prop := Z.abs x0 <= DLH /\ Z.abs y0 <= DLH /\ Z.abs x1 <= DLH /\ Z.abs y1 <= DLH.
 
-(* draw_line, ALL arguments *)
-Definition DrawPost (e : iexec) (x0 y0 x1 y1 mask : Z) (r : res (iexec * Z)) : Prop :=
+(* the Bresenham part, ALL arguments *)
+Definition BodyPost (e : iexec) (x0 y0 x1 y1 : Z) (r : res (iexec * Z)) : Prop :=
   match r with
   | Ok (e', n) => SameE e e' /\ Z.max (Z.abs (x0 - x1)) (Z.abs (y0 - y1)) + 1 <= n <= Z.abs (x0 - x1) + Z.abs (y0 - y1) + 1
-  | Panic p => (p = SITE_IGS_LINESTYLE /\ ~ (0 <= mask <= 5)) \/ (p = SITE_I32 /\ ~ DlSmall x0 y0 x1 y1)
+  | Panic p => p = SITE_I32 /\ ~ DlSmall x0 y0 x1 y1
   end.
 
-Lemma igs_draw_line_post e x0 y0 x1 y1 color mask : InvE e -> (color < 16)%N ->
-  DrawPost e x0 y0 x1 y1 mask (igs_draw_line e x0 y0 x1 y1 color mask).
+Lemma dl_body_post e x0 y0 x1 y1 color lm : InvE e -> (color < 16)%N -> BodyPost e x0 y0 x1 y1 (dl_body e x0 y0 x1 y1 color lm).
 Proof.
-  intros I HC. unfold igs_draw_line.
-  destruct (idx SITE_IGS_LINESTYLE LINE_STYLE mask) as [lm|p] eqn:EI; cbn [bind].
-  2:{ cbn [DrawPost]. left. unfold idx in EI.
-      destruct (mask <? 0) eqn:E0; [inversion EI; split; [reflexivity|apply Z.ltb_lt in E0; lia]|].
-      destruct (nth_error LINE_STYLE (Z.to_nat mask)) eqn:EN; [discriminate|]. inversion EI. split; [reflexivity|].
-      apply nth_error_None in EN. rewrite line_style_shape in EN. apply Z.ltb_ge in E0. lia. }
+  intros I HC. unfold dl_body.
   assert (PANIC : forall z, ~ (I32_MIN <= z <= I32_MAX) -> (DlSmall x0 y0 x1 y1 -> I32_MIN <= z <= I32_MAX) ->
-                  DrawPost e x0 y0 x1 y1 mask (Panic SITE_I32)).
-  { intros z NR H. cbn [DrawPost]. right. split; [reflexivity|]. intros Sm. apply NR. apply H. exact Sm. }
+                  BodyPost e x0 y0 x1 y1 (Panic SITE_I32)).
+  { intros z NR H. cbn [BodyPost]. split; [reflexivity|]. intros Sm. apply NR. apply H. exact Sm. }
   destruct (chk_cases (x0 - x1)) as [[-> R1] | [-> NR]]; cbn [bind]; [|apply (PANIC _ NR); unfold DlSmall, DLH, I32_MIN, I32_MAX; lia].
   destruct (chk_cases (Z.abs (x0 - x1))) as [[-> R2] | [-> NR]]; cbn [bind]; [|apply (PANIC _ NR); unfold DlSmall, DLH, I32_MIN, I32_MAX; lia].
   destruct (chk_cases (y0 - y1)) as [[-> R3] | [-> NR]]; cbn [bind]; [|apply (PANIC _ NR); unfold DlSmall, DLH, I32_MIN, I32_MAX; lia].
@@ -152,16 +148,167 @@ Proof.
   pose proof (dl_loop_post e color x0 y0 x1 y1 dx dy sx sy I HC ltac:(unfold dx; lia) ltac:(unfold dy; lia) (proj1 Hsx) (proj1 Hsy) (proj2 Hsx) (proj2 Hsy)
                 (Z.to_nat (dx + dy + 1)) (fuel_of_z (dx + dy + 1)) e x0 y0 (dx - dy) lm 0 0 0 (fuel_of_z_ge (dx + dy + 1) ltac:(unfold dx, dy; lia)) (SameE_refl e I) ltac:(unfold dx; lia) ltac:(unfold dy; lia) ltac:(lia) ltac:(lia) ltac:(lia)
                 ltac:(unfold dx, dy; lia) ltac:(unfold dx, dy; lia)) as Q.
-  destruct (dl_loop (fuel_of_z (dx + dy + 1)) e x0 y0 x1 y1 dx dy sx sy (dx - dy) lm color 0) as [[e' n]|p]; cbn [DlPost DrawPost] in *.
+  destruct (dl_loop (fuel_of_z (dx + dy + 1)) e x0 y0 x1 y1 dx dy sx sy (dx - dy) lm color 0) as [[e' n]|p]; cbn [DlPost BodyPost] in *.
   - destruct Q as [Q1 Q2]. split; [exact Q1|lia].
-  - right. destruct Q as [-> NS]. split; [reflexivity|]. intros (S1 & S2 & S3 & S4). apply NS. unfold dx, dy, DLB, DLH in *. repeat split; lia.
+  - destruct Q as [-> NS]. split; [reflexivity|]. intros (S1 & S2 & S3 & S4). apply NS. unfold dx, dy, DLB, DLH in *. repeat split; lia.
+Qed.
+
+(* draw_line BEFORE the fix, ALL arguments *)
+Definition DrawPost (e : iexec) (x0 y0 x1 y1 mask : Z) (r : res (iexec * Z)) : Prop :=
+  match r with
+  | Ok (e', n) => SameE e e' /\ Z.max (Z.abs (x0 - x1)) (Z.abs (y0 - y1)) + 1 <= n <= Z.abs (x0 - x1) + Z.abs (y0 - y1) + 1
+  | Panic p => (p = SITE_IGS_LINESTYLE /\ ~ (0 <= mask <= 5)) \/ (p = SITE_I32 /\ ~ DlSmall x0 y0 x1 y1)
+  end.
+
+Lemma igs_draw_line_unclipped_post e x0 y0 x1 y1 color mask : InvE e -> (color < 16)%N ->
+  DrawPost e x0 y0 x1 y1 mask (igs_draw_line_unclipped e x0 y0 x1 y1 color mask).
+Proof.
+  intros I HC. unfold igs_draw_line_unclipped.
+  destruct (idx SITE_IGS_LINESTYLE LINE_STYLE mask) as [lm|p] eqn:EI; cbn [bind].
+  2:{ cbn [DrawPost]. left. unfold idx in EI.
+      destruct (mask <? 0) eqn:E0; [inversion EI; split; [reflexivity|apply Z.ltb_lt in E0; lia]|].
+      destruct (nth_error LINE_STYLE (Z.to_nat mask)) eqn:EN; [discriminate|]. inversion EI. split; [reflexivity|].
+      apply nth_error_None in EN. rewrite line_style_shape in EN. apply Z.ltb_ge in E0. lia. }
+  pose proof (dl_body_post e x0 y0 x1 y1 color lm I HC) as Q.
+  destruct (dl_body e x0 y0 x1 y1 color lm) as [[e' n]|p]; cbn [BodyPost DrawPost] in *; [exact Q|right; exact Q].
+Qed.
+
+(* ---------- clip_line ---------- *)
+Definition between (a b v : Z) : Prop := Z.min a b <= v <= Z.max a b.
+
+Lemma chkw_ok z : I128_MIN <= z <= I128_MAX -> chkw z = Ok z.
+Proof.
+  intros H. unfold chkw. replace ((I128_MIN <=? z) && (z <=? I128_MAX)) with true; [reflexivity|].
+  symmetry. apply andb_true_iff. split; apply Z.leb_le; lia.
+Qed.
+
+(* a * n / d (truncated) lies between 0 and a when 0 < n <= d *)
+Lemma quot_between a n d : 0 < n <= d -> (0 <= a -> 0 <= Z.quot (a * n) d <= a) /\ (a <= 0 -> a <= Z.quot (a * n) d <= 0).
+Proof.
+  intros H. pose proof (Z.quot_rem' (a * n) d) as E. split; intros Ha.
+  - pose proof (Z.rem_bound_pos (a * n) d ltac:(nia) ltac:(lia)) as R. nia.
+  - assert (N0 : a * n <= 0) by nia. pose proof (Z.rem_bound_pos_neg (a * n) d ltac:(lia) N0) as R.
+    set (q := Z.quot (a * n) d) in *. set (r := Z.rem (a * n) d) in *.
+    assert (a * n >= a * d) by nia.
+    split; nia.
+Qed.
+
+(* cut: only called with the first end point beyond the edge and the second one not beyond it *)
+Lemma cut_ok u0 v0 u1 v1 bound : InI32 u0 -> InI32 v0 -> InI32 u1 -> InI32 v1 -> InI32 bound ->
+  (u0 < bound <= u1 \/ u1 <= bound < u0) -> exists v, cut u0 v0 u1 v1 bound = Ok (bound, v) /\ between v0 v1 v.
+Proof.
+  unfold InI32, I32_MIN, I32_MAX. intros R1 R2 R3 R4 R5 OR. unfold cut.
+  rewrite (chkw_ok (v1 - v0)) by (unfold I128_MIN, I128_MAX; lia). cbn [bind].
+  rewrite (chkw_ok (bound - u0)) by (unfold I128_MIN, I128_MAX; lia). cbn [bind].
+  rewrite (chkw_ok ((v1 - v0) * (bound - u0))) by (unfold I128_MIN, I128_MAX; nia). cbn [bind].
+  rewrite (chkw_ok (u1 - u0)) by (unfold I128_MIN, I128_MAX; lia). cbn [bind].
+  replace (u1 - u0 =? 0) with false by (symmetry; apply Z.eqb_neq; lia).
+  assert (Q : (0 <= v1 - v0 -> 0 <= Z.quot ((v1 - v0) * (bound - u0)) (u1 - u0) <= v1 - v0) /\
+              (v1 - v0 <= 0 -> v1 - v0 <= Z.quot ((v1 - v0) * (bound - u0)) (u1 - u0) <= 0)).
+  { destruct OR as [OR|OR].
+    - apply quot_between. lia.
+    - replace ((v1 - v0) * (bound - u0)) with (- ((v1 - v0) * (u0 - bound))) by ring.
+      replace (u1 - u0) with (- (u0 - u1)) by ring. rewrite Z.quot_opp_opp by lia. apply quot_between. lia. }
+  set (q := Z.quot ((v1 - v0) * (bound - u0)) (u1 - u0)) in *.
+  assert (B : Z.min 0 (v1 - v0) <= q <= Z.max 0 (v1 - v0)) by (destruct Q as [Q1 Q2]; destruct (Z.le_ge_cases 0 (v1 - v0)); [specialize (Q1 ltac:(lia))|specialize (Q2 ltac:(lia))]; lia).
+  rewrite (chkw_ok q) by (unfold I128_MIN, I128_MAX; lia). cbn [bind].
+  rewrite (chkw_ok (v0 + q)) by (unfold I128_MIN, I128_MAX; lia). cbn [bind].
+  exists (v0 + q). split; [reflexivity|unfold between; lia].
+Qed.
+
+Lemma between_i32 a b v : InI32 a -> InI32 b -> between a b v -> InI32 v.
+Proof. unfold InI32, between. lia. Qed.
+
+Definition EdgePost (lo : bool) (bound u0 v0 u1 v1 : Z) (r : res (option (Z * Z * Z * Z))) : Prop :=
+  match r with
+  | Ok None => True
+  | Ok (Some (a0, b0, a1, b1)) => out_edge lo bound a0 = false /\ out_edge lo bound a1 = false /\
+                                  between u0 u1 a0 /\ between u0 u1 a1 /\ between v0 v1 b0 /\ between v0 v1 b1
+  | Panic _ => False
+  end.
+
+Lemma clip_edge_post lo bound u0 v0 u1 v1 : InI32 u0 -> InI32 v0 -> InI32 u1 -> InI32 v1 -> InI32 bound ->
+  EdgePost lo bound u0 v0 u1 v1 (clip_edge lo bound u0 v0 u1 v1).
+Proof.
+  intros R1 R2 R3 R4 R5. unfold clip_edge.
+  destruct (out_edge lo bound u0) eqn:O0; destruct (out_edge lo bound u1) eqn:O1; cbn [andb EdgePost]; [exact I| | |].
+  - assert (OR : u0 < bound <= u1 \/ u1 <= bound < u0).
+    { unfold out_edge in *. destruct lo; [apply Z.ltb_lt in O0; apply Z.ltb_ge in O1|apply Z.ltb_lt in O0; apply Z.ltb_ge in O1]; lia. }
+    destruct (cut_ok u0 v0 u1 v1 bound R1 R2 R3 R4 R5 OR) as (v & E & B). rewrite E. cbn [bind fst snd EdgePost].
+    split; [unfold out_edge; destruct lo; apply Z.ltb_irrefl|split; [exact O1|]].
+    unfold between in *. repeat split; lia.
+  - assert (OR : u1 < bound <= u0 \/ u0 <= bound < u1).
+    { unfold out_edge in *. destruct lo; [apply Z.ltb_lt in O1; apply Z.ltb_ge in O0|apply Z.ltb_lt in O1; apply Z.ltb_ge in O0]; lia. }
+    destruct (cut_ok u1 v1 u0 v0 bound R3 R4 R1 R2 R5 OR) as (v & E & B). rewrite E. cbn [bind fst snd EdgePost].
+    split; [exact O0|split; [unfold out_edge; destruct lo; apply Z.ltb_irrefl|]].
+    unfold between in *. repeat split; lia.
+  - split; [exact O0|split; [exact O1|]]. unfold between. repeat split; lia.
+Qed.
+
+Lemma as_i32_id z : InI32 z -> as_i32 z = z.
+Proof. unfold InI32, I32_MIN, I32_MAX, as_i32. intros H. rewrite Z.mod_small by lia. lia. Qed.
+
+(* clip_line, ALL i32 arguments: no panic; the end points it returns are on the screen *)
+Definition ClipPost (x_max y_max : Z) (r : res (option (Z * Z * Z * Z))) : Prop :=
+  match r with
+  | Ok None => True
+  | Ok (Some (a, b, c, d)) => 0 <= a <= x_max /\ 0 <= b <= y_max /\ 0 <= c <= x_max /\ 0 <= d <= y_max
+  | Panic _ => False
+  end.
+
+Lemma clip_line_post x0 y0 x1 y1 x_max y_max : InI32 x0 -> InI32 y0 -> InI32 x1 -> InI32 y1 -> 0 <= x_max <= I32_MAX -> 0 <= y_max <= I32_MAX ->
+  ClipPost x_max y_max (clip_line x0 y0 x1 y1 x_max y_max).
+Proof.
+  intros R1 R2 R3 R4 RX RY. unfold clip_line.
+  assert (Z0 : InI32 0) by (unfold InI32, I32_MIN, I32_MAX; lia).
+  assert (ZX : InI32 x_max) by (unfold InI32, I32_MIN, I32_MAX in *; lia).
+  assert (ZY : InI32 y_max) by (unfold InI32, I32_MIN, I32_MAX in *; lia).
+  pose proof (clip_edge_post true 0 x0 y0 x1 y1 R1 R2 R3 R4 Z0) as P1.
+  destruct (clip_edge true 0 x0 y0 x1 y1) as [[[[[a0 b0] a1] b1]|]|]; cbn [bind EdgePost ClipPost] in *; [|exact I|contradiction].
+  destruct P1 as (O10 & O11 & B1 & B2 & B3 & B4).
+  pose proof (clip_edge_post false x_max a0 b0 a1 b1 (between_i32 _ _ _ R1 R3 B1) (between_i32 _ _ _ R2 R4 B3) (between_i32 _ _ _ R1 R3 B2) (between_i32 _ _ _ R2 R4 B4) ZX) as P2.
+  destruct (clip_edge false x_max a0 b0 a1 b1) as [[[[[c0 d0] c1] d1]|]|]; cbn [bind EdgePost ClipPost] in *; [|exact I|contradiction].
+  destruct P2 as (O20 & O21 & C1 & C2 & C3 & C4).
+  pose proof (between_i32 _ _ _ R1 R3 B1) as RA0. pose proof (between_i32 _ _ _ R1 R3 B2) as RA1.
+  pose proof (between_i32 _ _ _ R2 R4 B3) as RB0. pose proof (between_i32 _ _ _ R2 R4 B4) as RB1.
+  pose proof (between_i32 _ _ _ RA0 RA1 C1) as RC0. pose proof (between_i32 _ _ _ RA0 RA1 C2) as RC1.
+  pose proof (between_i32 _ _ _ RB0 RB1 C3) as RD0. pose proof (between_i32 _ _ _ RB0 RB1 C4) as RD1.
+  pose proof (clip_edge_post true 0 d0 c0 d1 c1 RD0 RC0 RD1 RC1 Z0) as P3.
+  destruct (clip_edge true 0 d0 c0 d1 c1) as [[[[[f0 e0] f1] e1]|]|]; cbn [bind EdgePost ClipPost] in *; [|exact I|contradiction].
+  destruct P3 as (O30 & O31 & D1 & D2 & D3 & D4).
+  pose proof (clip_edge_post false y_max f0 e0 f1 e1 (between_i32 _ _ _ RD0 RD1 D1) (between_i32 _ _ _ RC0 RC1 D3) (between_i32 _ _ _ RD0 RD1 D2) (between_i32 _ _ _ RC0 RC1 D4) ZY) as P4.
+  destruct (clip_edge false y_max f0 e0 f1 e1) as [[[[[h0 g0] h1] g1]|]|]; cbn [bind EdgePost ClipPost] in *; [|exact I|contradiction].
+  destruct P4 as (O40 & O41 & E1 & E2 & E3 & E4).
+  unfold out_edge in *.
+  apply Z.ltb_ge in O10, O11, O20, O21, O30, O31, O40, O41.
+  unfold between in *.
+  assert (G : (0 <= g0 <= x_max /\ 0 <= g1 <= x_max) /\ (0 <= h0 <= y_max /\ 0 <= h1 <= y_max)) by lia.
+  destruct G as [[G0 G1] [H0 H1]].
+  rewrite !as_i32_id by (unfold InI32, I32_MIN, I32_MAX in *; lia). auto.
+Qed.
+
+(* draw_line, ALL i32 arguments: it returns; the canvas keeps its size; the loop runs at most width + height - 1 times *)
+Lemma igs_draw_line_post e x0 y0 x1 y1 color mask : InvE e -> (color < 16)%N -> InI32 x0 -> InI32 y0 -> InI32 x1 -> InI32 y1 ->
+  exists e' n, igs_draw_line e x0 y0 x1 y1 color mask = Ok (e', n) /\ SameE e e' /\ 0 <= n <= e_w e + e_h e - 1.
+Proof.
+  intros I HC R1 R2 R3 R4. pose proof (wh_bounds e I) as [BW BH]. unfold igs_draw_line. cbv zeta.
+  rewrite (chk_ok (e_w e - 1)) by (unfold I32_MIN, I32_MAX; lia). cbn [bind].
+  rewrite (chk_ok (e_h e - 1)) by (unfold I32_MIN, I32_MAX; lia). cbn [bind].
+  pose proof (clip_line_post x0 y0 x1 y1 (e_w e - 1) (e_h e - 1) R1 R2 R3 R4 ltac:(unfold I32_MAX; lia) ltac:(unfold I32_MAX; lia)) as C.
+  destruct (clip_line x0 y0 x1 y1 (e_w e - 1) (e_h e - 1)) as [[[[[a b] c] d]|]|]; cbn [bind ClipPost] in *; [| |contradiction].
+  - pose proof (dl_body_post e a b c d color (line_mask_of mask) I HC) as Q.
+    destruct (dl_body e a b c d color (line_mask_of mask)) as [[e' n]|p]; cbn [BodyPost] in Q.
+    + exists e', n. split; [reflexivity|]. destruct Q as [Q1 Q2]. split; [exact Q1|lia].
+    + exfalso. destruct Q as [_ NS]. apply NS. unfold DlSmall, DLH. lia.
+  - exists e, 0. split; [reflexivity|split; [apply SameE_refl; exact I|lia]].
 Qed.
 
 (* ---------- the executor with line attributes ---------- *)
-Definition InvE2 (s : iexec2) : Prop := InvE (x_e s) /\ (e_line_color (x_e s) < 16)%N /\ 0 <= x_line_type s <= 6.
+Definition InvE2 (s : iexec2) : Prop :=
+  InvE (x_e s) /\ (e_line_color (x_e s) < 16)%N /\ 0 <= x_line_type s <= 6 /\ InI32 (x_cur_x s) /\ InI32 (x_cur_y s).
 
 Lemma iexec2_new_inv : InvE2 iexec2_new.
-Proof. split; [exact iexec_new_inv|split; [reflexivity|simpl; lia]]. Qed.
+Proof. split; [exact iexec_new_inv|split; [reflexivity|split; [simpl; lia|split; unfold InI32, I32_MIN, I32_MAX; simpl; lia]]]. Qed.
 
 Lemma SameE_line_color e e' : SameE e e' -> e_line_color e' = e_line_color e.
 Proof. intros (scr & -> & _). reflexivity. Qed.
@@ -211,92 +358,84 @@ Proof.
   destruct (lookup c IGS_ARITY) as [n|]; [destruct (negb (Z.of_nat (length ps) =? n)); [exact LC|exact Logic.I]|exact Logic.I].
 Qed.
 
-(* execute_command with the line commands, ALL parameter values: the only panics are the two known classes of draw_line *)
-Definition XPost2 (s : iexec2) (c : N) (ps : list Z) (r : xres2) : Prop :=
+(* execute_command with the line commands, ALL i32 parameter values: no panic *)
+Definition XPost2 (r : xres2) : Prop :=
   match r with
   | XOk2 s' _ => InvE2 s'
-  | XPanic2 p => ((c = 76 \/ c = 68)%N) /\
-                 ((p = SITE_IGS_LINESTYLE /\ x_line_type s = 6) \/
-                  (p = SITE_I32 /\ ~ (Forall (fun v => Z.abs v <= DLH) ps /\ Z.abs (x_cur_x s) <= DLH /\ Z.abs (x_cur_y s) <= DLH)))
+  | XPanic2 _ => False
   | XUnmodelled2 => True
   end.
 
-Lemma igs_exec2_ok s c ps str_ : InvE2 s -> XPost2 s c ps (igs_exec2 s c ps str_).
+Lemma igs_exec2_ok s c ps str_ : InvE2 s -> Forall InI32 ps -> XPost2 (igs_exec2 s c ps str_).
 Proof.
-  intros (I & LC & LT). unfold igs_exec2.
+  intros (I & LC & LT & CX & CY) FP. unfold igs_exec2.
   destruct (c =? 76)%N eqn:EL.
-  { apply N.eqb_eq in EL. subst c.
-    destruct (Nat.eqb (length ps) 4) eqn:EN; cbn [negb xlift2 XPost2]; [|split; [exact I|auto]]. apply Nat.eqb_eq in EN.
+  { destruct (Nat.eqb (length ps) 4) eqn:EN; cbn [negb xlift2 XPost2]; [|exact (conj I (conj LC (conj LT (conj CX CY))))]. apply Nat.eqb_eq in EN.
     destruct ps as [|x0 [|y0 [|x1 [|y1 [|]]]]]; try discriminate EN. unfold par. cbn [nth_error bind].
-    pose proof (igs_draw_line_post (x_e s) x0 y0 x1 y1 (e_line_color (x_e s)) (x_line_type s) I LC) as Q.
-    destruct (igs_draw_line (x_e s) x0 y0 x1 y1 (e_line_color (x_e s)) (x_line_type s)) as [[e' n]|p]; cbn [bind xlift2 XPost2 DrawPost fst] in *.
-    - destruct Q as [SE _]. split; [eapply SameE_inv; eauto|split; [simpl; rewrite (SameE_line_color _ _ SE); exact LC|exact LT]].
-    - split; [left; reflexivity|]. destruct Q as [[-> NM]|[-> NS]]; [left; split; [reflexivity|lia]|right; split; [reflexivity|]].
-      intros (F & _). apply NS. inversion F as [|? ? A0 F0]; subst. inversion F0 as [|? ? A1 F1]; subst. inversion F1 as [|? ? A2 F2]; subst. inversion F2 as [|? ? A3 F3]; subst.
-      unfold DlSmall. auto. }
+    inversion FP as [|? ? A0 F0]; subst. inversion F0 as [|? ? A1 F1]; subst. inversion F1 as [|? ? A2 F2]; subst. inversion F2 as [|? ? A3 F3]; subst.
+    destruct (igs_draw_line_post (x_e s) x0 y0 x1 y1 (e_line_color (x_e s)) (x_line_type s) I LC A0 A1 A2 A3) as (e' & n & E & SE & _).
+    rewrite E. cbn [bind xlift2 XPost2 fst].
+    split; [eapply SameE_inv; eauto|split; [simpl; rewrite (SameE_line_color _ _ SE); exact LC|split; [exact LT|split; assumption]]]. }
   destruct (c =? 68)%N eqn:ED.
-  { apply N.eqb_eq in ED. subst c.
-    destruct (Nat.eqb (length ps) 2) eqn:EN; cbn [negb xlift2 XPost2]; [|split; [exact I|auto]]. apply Nat.eqb_eq in EN.
+  { destruct (Nat.eqb (length ps) 2) eqn:EN; cbn [negb xlift2 XPost2]; [|exact (conj I (conj LC (conj LT (conj CX CY))))]. apply Nat.eqb_eq in EN.
     destruct ps as [|x1 [|y1 [|]]]; try discriminate EN. unfold par. cbn [nth_error bind].
-    pose proof (igs_draw_line_post (x_e s) (x_cur_x s) (x_cur_y s) x1 y1 (e_line_color (x_e s)) (x_line_type s) I LC) as Q.
-    destruct (igs_draw_line (x_e s) (x_cur_x s) (x_cur_y s) x1 y1 (e_line_color (x_e s)) (x_line_type s)) as [[e' n]|p]; cbn [bind xlift2 XPost2 DrawPost fst] in *.
-    - destruct Q as [SE _]. split; [eapply SameE_inv; eauto|split; [simpl; rewrite (SameE_line_color _ _ SE); exact LC|exact LT]].
-    - split; [right; reflexivity|]. destruct Q as [[-> NM]|[-> NS]]; [left; split; [reflexivity|lia]|right; split; [reflexivity|]].
-      intros (F & C1 & C2). apply NS. inversion F as [|? ? A0 F0]; subst. inversion F0 as [|? ? A1 F1]; subst.
-      unfold DlSmall. auto. }
+    inversion FP as [|? ? A0 F0]; subst. inversion F0 as [|? ? A1 F1]; subst.
+    destruct (igs_draw_line_post (x_e s) (x_cur_x s) (x_cur_y s) x1 y1 (e_line_color (x_e s)) (x_line_type s) I LC CX CY A0 A1) as (e' & n & E & SE & _).
+    rewrite E. cbn [bind xlift2 XPost2 fst].
+    split; [eapply SameE_inv; eauto|split; [simpl; rewrite (SameE_line_color _ _ SE); exact LC|split; [exact LT|split; assumption]]]. }
   destruct (c =? 84)%N.
-  { destruct (Nat.eqb (length ps) 3) eqn:EN; cbn [negb xlift2 XPost2]; [|split; [exact I|auto]]. apply Nat.eqb_eq in EN.
+  { destruct (Nat.eqb (length ps) 3) eqn:EN; cbn [negb xlift2 XPost2]; [|exact (conj I (conj LC (conj LT (conj CX CY))))]. apply Nat.eqb_eq in EN.
     destruct ps as [|p0 [|p1 [|p2 [|]]]]; try discriminate EN. unfold par. cbn [nth_error bind].
-    destruct (p0 =? 1); [cbn [xlift2 XPost2]; split; [exact I|auto]|].
-    destruct (p0 =? 2); [|cbn [xlift2 XPost2]; split; [exact I|auto]].
-    destruct ((1 <=? p1) && (p1 <=? 7)) eqn:ER; cbn [xlift2 XPost2]; [|split; [exact I|auto]].
-    apply andb_true_iff in ER. destruct ER as [R1 R2]. apply Z.leb_le in R1, R2. split; [exact I|split; [exact LC|simpl; lia]]. }
+    destruct (p0 =? 1); [cbn [xlift2 XPost2]; exact (conj I (conj LC (conj LT (conj CX CY))))|].
+    destruct (p0 =? 2); [|cbn [xlift2 XPost2]; exact (conj I (conj LC (conj LT (conj CX CY))))].
+    destruct ((1 <=? p1) && (p1 <=? 7)) eqn:ER; cbn [xlift2 XPost2]; [|exact (conj I (conj LC (conj LT (conj CX CY))))].
+    apply andb_true_iff in ER. destruct ER as [R1 R2]. apply Z.leb_le in R1, R2.
+    split; [exact I|split; [exact LC|split; [simpl; lia|split; assumption]]]. }
   pose proof (igs_exec_ok (x_e s) c ps str_ I) as Q. pose proof (igs_exec_line_color (x_e s) c ps str_ I LC) as QL.
   destruct (igs_exec (x_e s) c ps str_) as [e ok|p|]; cbn [XPost XPost2] in *; [|contradiction|exact Logic.I].
-  split; [exact Q|split; [exact QL|exact LT]].
+  split; [exact Q|split; [exact QL|split; [exact LT|split; assumption]]].
 Qed.
 
 (* the total executor *)
 Definition XInv2 (x : xstate2) : Prop :=
   match x with
   | SOkE2 s => InvE2 s
-  | SPanicE2 p => p = SITE_IGS_LINESTYLE \/ p = SITE_I32        (* the two known classes of draw_line *)
+  | SPanicE2 _ => False
   | SUnmodelledE2 => True
   end.
 
-Lemma igs_x2_inv x c ps s : XInv2 x -> XInv2 (fst (igs_x2 x c ps s)).
+Lemma igs_x2_inv x c ps s : Forall InI32 ps -> XInv2 x -> XInv2 (fst (igs_x2 x c ps s)).
 Proof.
-  destruct x as [e|p|]; intros H; simpl in *; [|exact H|exact I].
-  pose proof (igs_exec2_ok e c ps s H) as Q. destruct (igs_exec2 e c ps s) as [e' ok|p|]; simpl in *; [exact Q| |exact I].
-  destruct Q as [_ [[-> _]|[-> _]]]; auto.
+  intros FP. destruct x as [e|p|]; intros H; simpl in *; [|exact H|exact I].
+  pose proof (igs_exec2_ok e c ps s H FP) as Q. destruct (igs_exec2 e c ps s) as [e' ok|p|]; simpl in *; [exact Q|contradiction|exact I].
 Qed.
 
 Definition igs_world_init2 (FS : Type) (fs : FS) : iworld xstate2 FS := {| w_p := ipars_new; w_x := SOkE2 iexec2_new; w_fb := fs |}.
 
 Lemma igs_stream_kernel2_lemma (FS : Type) (fb_print : FS -> N -> FS * bool) (fs : FS) es :
   match igs_run xstate2 igs_x2 FS fb_print (igs_world_init2 FS fs) es with
-  | Ok w' => IgsInv (w_p xstate2 FS w') /\
+  | Ok w' => IgsInvN (w_p xstate2 FS w') /\
              match w_x xstate2 FS w' with
              | SOkE2 s => InvE2 s /\ exists px, igs_picture (x_e s) = Ok px /\ Z.of_nat (length px) = 4 * (e_w (x_e s) * e_h (x_e s))
-             | SPanicE2 p => p = SITE_IGS_LINESTYLE \/ p = SITE_I32
+             | SPanicE2 _ => False
              | SUnmodelledE2 => True
              end
-  | Panic s => s = SITE_IGS_LOOP_ARITH
+  | Panic _ => False
   end.
 Proof.
-  pose proof (igs_run_post xstate2 igs_x2 FS fb_print es (igs_world_init2 FS fs) ipars_new_inv) as A.
-  pose proof (igs_run_Q xstate2 igs_x2 FS fb_print XInv2 igs_x2_inv es (igs_world_init2 FS fs) iexec2_new_inv) as B.
+  pose proof (igs_run_post xstate2 igs_x2 FS fb_print es (igs_world_init2 FS fs) ipars_new_invN) as A.
+  pose proof (igs_run_Q xstate2 igs_x2 FS fb_print XInv2 igs_x2_inv es (igs_world_init2 FS fs) (proj2 ipars_new_invN) iexec2_new_inv) as B.
   destruct (igs_run xstate2 igs_x2 FS fb_print (igs_world_init2 FS fs) es) as [w'|s]; [|exact A].
   split; [exact A|]. destruct (w_x xstate2 FS w') as [s|p|]; simpl in B; [|exact B|exact I].
   split; [exact B|apply igs_picture_ok; apply B].
 Qed.
 
-(* the stall: a line whose end points are D apart costs at least D + 1 loop iterations, on a 320 x 200 canvas *)
-Lemma igs_draw_line_stall D : 0 <= D <= DLH ->
-  exists e' n, igs_draw_line iexec_new 0 0 D 0 0%N 0 = Ok (e', n) /\ D + 1 <= n.
+(* BEFORE the fix — the stall: a line whose end points are D apart cost at least D + 1 loop iterations, on a 320 x 200 canvas *)
+Lemma igs_draw_line_unclipped_stall D : 0 <= D <= DLH ->
+  exists e' n, igs_draw_line_unclipped iexec_new 0 0 D 0 0%N 0 = Ok (e', n) /\ D + 1 <= n.
 Proof.
-  intros HD. pose proof (igs_draw_line_post iexec_new 0 0 D 0 0%N 0 iexec_new_inv ltac:(reflexivity)) as Q.
-  destruct (igs_draw_line iexec_new 0 0 D 0 0%N 0) as [[e' n]|p]; cbn [DrawPost] in Q.
+  intros HD. pose proof (igs_draw_line_unclipped_post iexec_new 0 0 D 0 0%N 0 iexec_new_inv ltac:(reflexivity)) as Q.
+  destruct (igs_draw_line_unclipped iexec_new 0 0 D 0 0%N 0) as [[e' n]|p]; cbn [DrawPost] in Q.
   - exists e', n. split; [reflexivity|]. destruct Q as [_ Q]. lia.
   - exfalso. destruct Q as [[_ NM]|[_ NS]]; [apply NM; lia|apply NS; unfold DlSmall, DLH in *; lia].
 Qed.
